@@ -59,6 +59,9 @@ def build_opts(o):
             kw[str(k)] = RemoveAnnotationsOptions(**dict((str(a), b) for a, b in v.items()))
         elif k in ('preserve_locals', 'preserve_globals') and isinstance(v, list):
             kw[str(k)] = [str(x) if PY2 else x for x in v]
+        elif k in ('preserve_locals', 'preserve_globals') and isinstance(v, dict):
+            # {'native': name}: a single name as the interpreter's `str`; a plain JSON string arrives as the text type (`unicode` on 2.x)
+            kw[str(k)] = str(v['native'])
         else:
             kw[str(k)] = v
     return kw
